@@ -276,7 +276,7 @@ def monitor_unit(cmd, out, iovmax):
             i += 1
         exp = -5 if i >= len(outs) else (-int(outs[i][1:]) if outs[i].startswith("E") else int(outs[i]))
         if res != exp:
-            return ("work-errno-mapping" if exp < 0 else "work-eintr-retry", f"req->result {res}, expected {exp} for answers {outs}")
+            return ("work-eintr-retry" if res == -EINTR and i > 0 else "work-errno-mapping", f"req->result {res}, expected {exp} for answers {outs}")
         if ncalls != i + 1:
             return ("work-eintr-retry", f"{ncalls} calls for answers {outs}")
         return None
